@@ -86,7 +86,7 @@ impl Prop for C14 {
         ]
     }
     fn cases(tier: Tier) -> u32 {
-        tier.pick(8_000, 200_000)
+        tier.pick(8_000, 800_000)
     }
     fn strategy(tier: Tier) -> BoxedStrategy<Case> {
         let mut p = params(tier);
